@@ -13,6 +13,7 @@ package config
 import (
 	"context"
 	"crypto/tls"
+	"crypto/x509"
 	"encoding/json"
 	"fmt"
 	"io"
@@ -28,6 +29,7 @@ import (
 	"time"
 
 	ssi "github.com/nuts-foundation/go-did"
+	"github.com/nuts-foundation/go-did/did"
 	"github.com/nuts-foundation/go-did/vc"
 	"github.com/nuts-foundation/nuts-node/auth"
 	"github.com/nuts-foundation/nuts-node/auth/client/iam"
@@ -39,6 +41,7 @@ import (
 	"github.com/nuts-foundation/nuts-node/cmd"
 	"github.com/nuts-foundation/nuts-node/core"
 	"github.com/nuts-foundation/nuts-node/crypto"
+	"github.com/nuts-foundation/nuts-node/discovery"
 	"github.com/nuts-foundation/nuts-node/events"
 	"github.com/nuts-foundation/nuts-node/http/client"
 	"github.com/nuts-foundation/nuts-node/jsonld"
@@ -49,6 +52,7 @@ import (
 	"github.com/nuts-foundation/nuts-node/vcr/pe"
 	"github.com/nuts-foundation/nuts-node/vdr"
 	"github.com/nuts-foundation/nuts-node/vdr/didnuts/didstore"
+	"github.com/nuts-foundation/nuts-node/vdr/didweb"
 	"github.com/piprate/json-gold/ld"
 	"github.com/sirupsen/logrus"
 	"go.uber.org/mock/gomock"
@@ -196,6 +200,46 @@ type actors struct {
 	iam    iam.Client
 	rp     oauth.RelyingParty
 	strict bool
+	// long-lived clients the engines of a running node hold (constructed in their Configure)
+	vdr       vdr.VDR
+	vcr       vcr.VCR
+	discovery discovery.Server
+	services  map[string]string // outbound URL -> id of the discovery service definition carrying it as endpoint
+	// clients constructed before any engine was configured
+	early map[string]core.HTTPRequestDoer
+	id    string
+}
+
+func doGet(ctx context.Context, doer core.HTTPRequestDoer, u string) error {
+	if doer == nil {
+		return fmt.Errorf("no such client")
+	}
+	req, err := http.NewRequestWithContext(ctx, http.MethodGet, u, nil)
+	if err != nil {
+		return err
+	}
+	rsp, err := doer.Do(req)
+	if rsp != nil && rsp.Body != nil {
+		_ = rsp.Body.Close()
+	}
+	return err
+}
+
+func buildEarlyClients(pool *x509.CertPool) map[string]core.HTTPRequestDoer {
+	return map[string]core.HTTPRequestDoer{
+		"early-new":   client.New(3 * time.Second),
+		"early-cache": client.NewWithCache(3 * time.Second),
+		"early-tls":   client.NewWithTLSConfig(3*time.Second, &tls.Config{RootCAs: pool, MinVersion: tls.VersionTLS12}),
+	}
+}
+
+// statusListCredential: a credential whose revocation status lives in a StatusList2021 credential at the given URL
+func statusListCredential(u string) (*vc.VerifiableCredential, error) {
+	data := fmt.Sprintf(`{"@context":["https://www.w3.org/2018/credentials/v1","https://w3id.org/vc/status-list/2021/v1"],
+"id":"did:web:issuer.nuts-verif.nl#c1","type":["VerifiableCredential","VerifCredential"],"issuer":"did:web:issuer.nuts-verif.nl",
+"issuanceDate":"2024-01-01T00:00:00Z","credentialSubject":{"id":"did:web:holder.nuts-verif.nl"},
+"credentialStatus":{"id":%q,"type":"StatusList2021Entry","statusPurpose":"revocation","statusListIndex":"7","statusListCredential":%q}}`, u+"#7", u)
+	return vc.ParseVerifiableCredential(data)
 }
 
 func (w *world) dummyVP() vc.VerifiablePresentation {
@@ -313,6 +357,39 @@ func (w *world) perform(a action, x actors) (res actResult) {
 			_, err = x.iam.AccessToken(ctx, "code", u, "https://node.nuts-verif.nl/callback", "subject", "https://node.nuts-verif.nl/oauth2/subject", "verifier", false)
 		case "iam-credentials":
 			_, err = x.iam.VerifiableCredentials(ctx, u, "token", "proof")
+		case "early-new", "early-cache", "early-tls":
+			err = doGet(ctx, x.early[a.Entry], u)
+		case "vdr-didweb":
+			// the did:web resolver of the running vdr (client built in vdr.Configure); the identifier is the one whose document lives at u
+			var pu *url.URL
+			if pu, err = url.Parse(u); err == nil {
+				var id *did.DID
+				if id, err = didweb.URLToDID(*pu); err == nil {
+					_, _, err = x.vdr.Resolver().Resolve(*id, nil)
+				}
+			}
+		case "vcr-statuslist":
+			// the StatusList2021 client of the running vcr (built in vcr.Configure), reached through the credential verifier
+			var cred *vc.VerifiableCredential
+			res.URL = strings.TrimSuffix(u, "/") + "/statuslist-" + x.id
+			if cred, err = statusListCredential(res.URL); err == nil {
+				err = x.vcr.Verifier().Verify(*cred, true, false, nil)
+			}
+		case "vcr-openid4vci-issuer", "vcr-openid4vci-wallet":
+			issuerClient, walletClient := vcr.VerifOpenID4VCIClients(x.vcr)
+			if a.Entry == "vcr-openid4vci-issuer" {
+				err = doGet(ctx, issuerClient, u)
+			} else {
+				err = doGet(ctx, walletClient, u)
+			}
+		case "discovery-get":
+			// the discovery module forwards a Get for a service it does not serve to the endpoint of the service definition
+			sid, ok := x.services[u]
+			if !ok {
+				res.Err = "no service definition for " + u
+				return
+			}
+			_, _, _, err = x.discovery.Get(ctx, sid, 0)
 		default:
 			res.Err = "unknown entry " + a.Entry
 			return
@@ -502,8 +579,10 @@ func (w *world) runJSONLD(c tcase) result {
 
 func (w *world) runOutbound(c tcase) result {
 	res := result{ID: c.ID, Layer: c.Layer, Accepted: true, Phase: "running"}
-	client.StrictMode = c.Vec.Strict
-	x := actors{strict: c.Vec.Strict,
+	client.StrictMode = false // the zero value a process starts with: "early" clients are made now ...
+	early := buildEarlyClients(w.rec.pool)
+	client.StrictMode = c.Vec.Strict // ... and strict mode is switched on afterwards, as http.Engine.Configure does
+	x := actors{strict: c.Vec.Strict, early: early, id: c.ID,
 		iam: iam.NewClient(nil, nil, nil, nil, nil, c.Vec.Strict, 3*time.Second),
 		rp:  oauth.NewRelyingParty(nil, nil, nil, nil, 3*time.Second, &tls.Config{RootCAs: w.rec.pool, MinVersion: tls.VersionTLS12}, c.Vec.Strict)}
 	for _, act := range c.Acts {
@@ -513,6 +592,10 @@ func (w *world) runOutbound(c tcase) result {
 }
 
 // ------------------------------------------------------------------------------------------------ assembled system
+
+const serviceDefinition = `{"id": %q, "endpoint": %q, "presentation_max_validity": 36000,
+"presentation_definition": {"id": "pd_verif", "format": {"ldp_vc": {"proof_type": ["JsonWebSignature2020"]}},
+ "input_descriptors": [{"id": "id_verif", "constraints": {"fields": [{"path": ["$.type"], "filter": {"type": "string", "const": "VerifCredential"}}]}}]}}`
 
 func setNested(m map[string]any, key string, val any) {
 	parts := strings.Split(key, ".")
@@ -583,6 +666,21 @@ func (w *world) runSystem(c tcase) (res result) {
 		add(v.Secret, "s3cr3t-"+c.ID)
 	}
 
+	// discovery service definitions: one per outbound URL the discovery client is asked to contact
+	defDir := filepath.Join(dir, "discovery")
+	_ = os.MkdirAll(defDir, 0700)
+	servicesByURL := map[string]string{}
+	for _, act := range c.Acts {
+		if act.Kind == "outbound" && act.Entry == "discovery-get" {
+			u := strings.ReplaceAll(act.URL, "{PLAIN}", w.rec.httpAddr)
+			if _, ok := servicesByURL[u]; !ok {
+				sid := fmt.Sprintf("urn:verif:service:%d", len(servicesByURL))
+				servicesByURL[u] = sid
+				_ = os.WriteFile(filepath.Join(defDir, fmt.Sprintf("def%d.json", len(servicesByURL))), []byte(fmt.Sprintf(serviceDefinition, sid, u)), 0600)
+			}
+		}
+	}
+
 	yamlMap := map[string]any{}
 	var args, env []string
 	setEnv := func(k string, val any) {
@@ -623,6 +721,7 @@ func (w *world) runSystem(c tcase) (res result) {
 		"http.internal.address": internalAddr, "http.public.address": publicAddr, "network.grpcaddr": grpcAddr,
 		"network.enablediscovery": "false", "events.nats.port": fmt.Sprint(freePort()), "events.nats.hostname": "127.0.0.1",
 		"auth.irma.autoupdateschemas": "false", "pki.denylist.url": "", "goldenhammer.enabled": "false",
+		"discovery.definitions.directory": defDir, "discovery.client.refresh_interval": "0",
 	} {
 		setEnv(k, val)
 	}
@@ -637,6 +736,7 @@ func (w *world) runSystem(c tcase) (res result) {
 	defer clearNutsEnv()
 	client.StrictMode = false // a fresh process starts with the zero value
 
+	early := buildEarlyClients(w.rec.pool) // made before anything is configured, used on the running node
 	system := cmd.CreateSystem(func() {})
 	command := cmd.CreateCommand(system)
 	serverCmd, _, err := command.Find([]string{"server"})
@@ -705,7 +805,15 @@ func (w *world) runSystem(c tcase) (res result) {
 		res.Error = "auth / jsonld engine not found"
 		return res
 	}
-	x := actors{notary: as.ContractNotary(), loader: jl.DocumentLoader(), iam: as.IAMClient(), rp: as.RelyingParty(), strict: v.Strict}
+	x := actors{notary: as.ContractNotary(), loader: jl.DocumentLoader(), iam: as.IAMClient(), rp: as.RelyingParty(), strict: v.Strict,
+		early: early, services: servicesByURL, id: c.ID}
+	x.vdr, _ = system.FindEngineByName("vdr").(vdr.VDR)
+	x.vcr, _ = system.FindEngineByName("vcr").(vcr.VCR)
+	x.discovery, _ = system.FindEngineByName("discovery").(discovery.Server)
+	if x.vdr == nil || x.vcr == nil || x.discovery == nil {
+		res.Error = "vdr / vcr / discovery engine not found"
+		return res
+	}
 	for _, act := range c.Acts {
 		if act.Kind == "jsonld" && act.Arg == "listed" {
 			act.URL = listed
